@@ -134,19 +134,36 @@ fn leak_probe_prog(i: usize) -> lit::Prog {
 /// (checkpoint interval 1), resume from the checkpoint — the resumed run starts with pristine state — and compare
 /// with the uninterrupted run, whose iteration k ran after k - 1 others in the same Execution.
 fn leak_probe(rec: &mut Rec, i: usize, seed: u64) {
-    let p = leak_probe_prog(i);
-    rec.prog = p.s();
-    rec.hash = p.hash();
+    // probes 4..: the same with exploration controls used inside the iterations (their flags are per-iteration state too)
+    let ctrl: u8 = match i {
+        0..=3 => 0,
+        4 => 4,
+        5 => 3,
+        6 => 5,
+        _ => 8,
+    };
+    let p = leak_probe_prog(i % 4);
+    rec.prog = format!("{}{}", if ctrl != 0 { format!("[control placement {}] ", ctrl) } else { String::new() }, p.s());
+    rec.hash = fnv(&rec.prog);
     rec.extra = json!({"family": "iso"});
-    let cfg = lit::Cfg { iter_cap: 50_000, keep_paths: true, keep_seq: true, ..Default::default() };
+    let cfg = lit::Cfg { iter_cap: 50_000, keep_paths: true, keep_seq: true, ctrl, ..Default::default() };
     let full = lit::run(&p, &cfg);
     rec.runs += 1;
     rec.iters += full.iters as u64;
     if full.panic.is_some() {
-        rec.v("unexpected_panic", "", full.panic.clone().unwrap_or_default());
+        rec.v(if ctrl == 8 { "iteration_state_leaks" } else { "unexpected_panic" }, "", format!("the model failed in iteration {}: {}", full.iters, full.panic.clone().unwrap_or_default().lines().next().unwrap_or("")));
         return;
     }
     let n = full.iters;
+    if ctrl == 8 {
+        // switching exploration off at the very end of an iteration decides nothing: the next iteration must start
+        // with exploration on again, i.e. the run must be identical to the one without the call
+        let base = lit::run(&p, &lit::Cfg { ctrl: 0, ..cfg.clone() });
+        rec.runs += 1;
+        if base.seq != full.seq {
+            rec.v("iteration_state_leaks", "", format!("with stop_exploring() as the last call of every iteration the model ran {} iterations instead of {}: the exploration flag of one iteration is visible in the next", full.iters, base.iters));
+        }
+    }
     let dir = verif_root().join("work");
     let _ = std::fs::create_dir_all(&dir);
     let file = dir.join(format!("iso-ckpt-{}-{}-{}.json", std::process::id(), seed, i)).to_string_lossy().to_string();
@@ -174,7 +191,7 @@ fn leak_probe(rec: &mut Rec, i: usize, seed: u64) {
 
 pub fn work(tier: u8, seed: u64, idx: usize) -> Rec {
     let mut rec = Rec::new(idx);
-    if idx < 4 {
+    if idx < 8 {
         leak_probe(&mut rec, idx, seed);
         return rec;
     }
